@@ -14,6 +14,7 @@ FACETS = {
     "C07": "CSEVRGK",
     "C08": "VRFK",
     "C13": "VRFK",
+    "C10": "VRFK",
     "C14": "VRSCK",
     "C15": "VRSCTNK",
     "C16": "VRSEK",
